@@ -314,6 +314,12 @@ class Interp:
         ex_slot = self.obs.futures[o["f"]]["ex"]
 
         def cb(fut, mode=mode, fid=o["f"]):
+            try:
+                return cb_body(fut, mode, fid)
+            finally:
+                self.obs.data["cb_finished"] = self.obs.data.get("cb_finished", 0) + 1
+
+        def cb_body(fut, mode, fid):
             log.append((fid, mode))
             if mode == "raise":
                 raise tasks.CustomError("callback failed")
@@ -342,6 +348,17 @@ class Interp:
         self.obs.data.setdefault("cb_registered", []).append((o["f"], mode))
         f.add_done_callback(cb)
         return {}
+
+    def op_settle(self, th, o):
+        """wait until every registered future is done and every attached done-callback has finished (callbacks
+        run after the waiters of a future are released, and may submit more work)."""
+        for _ in range(20000):
+            # callbacks first: a finished callback has already recorded the future it submitted
+            if self.obs.data.get("cb_finished", 0) >= len(self.obs.data.get("cb_registered", [])) and \
+                    all(f.done() for f in list(self.futs.values())):
+                return {"settled": True}
+            rt.RT.sched.sleep(0.01)
+        return {"settled": False}
 
     def op_shutdown(self, th, o):
         ex = self.slots.get(o["ex"])
